@@ -115,15 +115,15 @@ NumShift(a, b, left) ==
   ELSE IF ~QLt(QAbs(b.v), Two31) THEN VErr("generic")
   ELSE IF ~QIsInt(b.v) THEN VErr("generic")
   ELSE LET k == QToNative(b.v) IN
-       IF k < 0 THEN [t |-> "shiftneg", a |-> a, k |-> k, left |-> left]   \* error or the exact value: see Agree
-       ELSE IF ~ShiftCostOK(k) THEN VHuge
+       IF ~ShiftCostOK(IF k < 0 THEN -k ELSE k) THEN VHuge
+       ELSE IF k < 0 THEN [t |-> "shiftneg", a |-> a, k |-> k, left |-> left]   \* error or the exact value: see Agree
        ELSE IF a.t = "float" THEN VFloat(a.d, a.mayerr)
        ELSE VNum(IF left THEN QMul(a.v, QPow2(k)) ELSE QMul(a.v, QPow2(-k)), a.d)
 
 NumRem(a, b) ==
   IF ~DEq(a.d, b.d) THEN VErr("generic")
-  ELSE IF a.t = "num" /\ b.t = "num"
-       THEN (IF QIsZero(b.v) THEN VErr("generic") ELSE VNum(QRem(a.v, b.v), a.d))
+  ELSE IF b.t = "num" /\ QIsZero(b.v) THEN VErr("generic")       \* undefined whatever the dividend is
+  ELSE IF a.t = "num" /\ b.t = "num" THEN VNum(QRem(a.v, b.v), a.d)
   ELSE VFloat(a.d, MayErr(a) \/ MayErr(b))
 
 NumBit(op, a, b) ==
